@@ -1,5 +1,6 @@
 import Props.SchedTie
 import TaskModel.Sched.TraceLemmas
+import TaskModel.Sched.OutLemmas
 import TaskModel.Gen.Codes
 import Props.C02
 /-!
@@ -20,24 +21,31 @@ programs, positions of failing commands, placements of `ignore_error`, interleav
   own command, of a directly called task, of a direct dependency gives the directly called
   task the result `TaskRunError{exit n}`, i.e. exit code 201, or `n` with `--exit-code`;
   `C03_status_chain`: the same through any number of intermediate levels (as a statement
-  about the functions `afterCmd` / `stop ∘ depErr` each level applies).
-  `C03_status_partial` (every reachable configuration): a directly called task that is not a
-  dedup waiter never returns a bare exit status (which `main` would turn into exit code 1).
-  `C03_status_full` + `C03_status_counterexample`: without "not a waiter" that is false.
+  about the functions `afterCmd` / `stopDeps` each level applies).
+  `C03_status_full` (every reachable configuration, every top-level activation — executor of
+  the task or dedup waiter of an execution somebody else started): the result is never a bare
+  exit status (which `main` would turn into exit code 1), never a doubly wrapped
+  `TaskRunError`, and for an execution that ended with a failing command or a dependency's
+  exit status it is `TaskRunError{bare error}`: 201, or the status with `--exit-code`.
+  `C03_waiter_as_executor`: a waiter's result is what it would have returned had it executed
+  the task itself (same outcome, wrapped by its own `indirect` flag; `C03_as_if_*`).
+  `C03_no_double_wrap` (every activation).  `C03_statusMon_sound`: the raw monitor the driver
+  prints as `C03s` holds on every accepted run.
 
-What the full statement ("… wherever the failing command sits", any depth) over *traces*
-would need beyond `C03_status_chain`: an inductive predicate on reachable configurations "the
-result of activation `a` is the exit status `n` of a command in its call tree", closed under
-the three one-level lemmas through `C03_callRes_is_callee_result` / `depResults`, with the
-side conditions that (i)
-no task on the path is `ignore_error` (a caller's task-level `ignore_error` suppresses an
-exit status coming back from a `task:` entry too), (ii) the failing dependency is the one
-whose error the errgroup kept (`depsDone r` may report any failing member; siblings see a
-cancelled context and may fail with `ctx` instead), and (iii) no activation on the path
-is a dedup waiter.  (iii) is a real gap, see `C03_status_full` below: a waiter returns the
-shared execution's error as it is, so a top-level waiter on an execution that ran as a
-dependency returns a bare exit status (exit code 1), and a caller of a waiter on a
-top-level execution wraps a `TaskRunError` again (201 even with `--exit-code`).
+How the status travels: the execution of a task ends with an `Outcome` — the bare error and
+whether it is of the wrappable kind (`Act.out`; `C03_outcome_cmd`, `C03_outcome_deps`); every
+activation that takes this outcome — the one that executed the task and every waiter of a
+`run: once` / `when_changed` execution — returns `wrapFor (its own indirect) outcome`
+(`S2.OutInv_sound`).  This is `RunTask` after the fix of `C03-dedup-waiter-status`; before it
+the executing activation wrapped the error by its own call mode and the waiters received that
+wrapped error: `oldWaiterRes`, `C03_old_rule_counterexample` (history).
+
+What the "wherever the failing command sits" statement over *traces* needs beyond
+`C03_status_chain`: the side conditions that (i) no task on the path is `ignore_error` (a
+caller's task-level `ignore_error` suppresses an exit status coming back from a `task:` entry
+too) and (ii) the failing dependency is the one whose error the errgroup kept (`depsDone r`
+may report any failing member; siblings see a cancelled context and may fail with `ctx`
+instead).  Dedup waiters are no longer an exception.
 -/
 namespace Props.C03
 open TaskModel.Sched.S2
@@ -126,17 +134,17 @@ theorem C03_callRes_is_callee_result (P : Program) (F : Flags) (n : Nat) (tr : L
   exact ⟨id, k, h1, h3, h4, h5⟩
 
 /-- **(b) dependencies.** `depsDone r` with `r` a failure: the task stops before its guards
-and its command loop (`Act.stop`): no command has started or will start, the result is a failure. -/
+and its command loop (`Act.stopDeps`): no command has started or will start, the result is a failure. -/
 theorem C03_propagates_deps_step (F : Flags) (o : Obs) (x : Act) (r : Res) (y : Act) (eff : Eff)
     (hs : stepLocal F o x (.depsDone r) = some (y, eff)) (hok : r.isOk = false) :
-    y = x.stop (depErr x.indirect r) ∧ y.phase = .finished ∧ lateP y.phase = true ∧
+    y = x.stopDeps r ∧ y.phase = .finished ∧ lateP y.phase = true ∧
     y.res.isOk = false ∧ y.started = x.started ∧ y.regs = x.regs := by
   have hL := LStep_of_stepLocal F o x _ y eff hs
   cases hL with
   | depsDoneOk _ rs hp hd hr ha => rw [hok] at hr; cases hr
   | depsDoneFail _ rs hp hd hr hm =>
     refine ⟨rfl, rfl, rfl, ?_, rfl, rfl⟩
-    simp only [Act.stop, depErr_isOk]; exact hok
+    simp only [Act.stopDeps, depErr_isOk]; exact hok
 
 /-- **(c) `deps_ok_before_body`.** In every reachable configuration an activation that is in
 its guards or command loop, or has ever started a command or registered a `defer:`, has
@@ -415,11 +423,11 @@ theorem C03_status_dep (F : Flags) (o : Obs) (x : Act) (n : Nat) (y : Act) (eff 
     y.res = .run (.exit n) ∧ exitCode y.res false = 201 ∧ exitCode y.res true = n := by
   obtain ⟨e, _⟩ := C03_propagates_deps_step F o x (.exit n) y eff hs rfl
   rw [e]
-  simp only [Act.stop, depErr, hd]
+  simp only [Act.stopDeps, depErr, hd]
   exact ⟨rfl, rfl, rfl⟩
 
 /-- one level of the way an error travels up: through a non-deferred `task:` entry of `x`
-(`x.afterCmd`), or through the dependency group of `x` (`depsDone`, `Act.stop ∘ depErr`) -/
+(`x.afterCmd`), or through the dependency group of `x` (`depsDone`, `Act.stopDeps`) -/
 inductive Level
   | call (x : Act) (t : Nat)
   | dep (x : Act)
@@ -431,7 +439,7 @@ def Level.act : Level → Act
 /-- the result of the activation at this level when the level below returned `r` -/
 def Level.res : Level → Res → Res
   | .call x t, r => (x.afterCmd (.call t false) r).res
-  | .dep x, r => (x.stop (depErr x.indirect r)).res
+  | .dep x, r => (x.stopDeps r).res
 
 /-- the error of a failing command travelling up through the levels, innermost first -/
 def passUp : List Level → Res → Res
@@ -443,7 +451,7 @@ theorem Level.res_exit (l : Level) (n : Nat) (hi : l.act.def_.ignoreError = fals
   cases l with
   | call x t => exact (C03_not_ignored_stops x (.call t false) n hi (fun _ _ h => by cases h)).2.1
   | dep x =>
-    simp only [Level.res, Act.stop, depErr, wrap, Level.act]
+    simp only [Level.res, Act.stopDeps, depErr, wrap, Level.act]
     by_cases h : x.indirect = true <;> simp [h]
 
 /-- **any depth.** An exit status `n` passes unchanged through any number of levels of
@@ -479,14 +487,146 @@ theorem C03_status_chain (ls : List Level) (top : Level) (n : Nat)
     rw [happ, C03_status_passes_up ls n h, Level.res_exit top n ht.2, ht.1]; rfl
   rw [e]; exact ⟨rfl, rfl, rfl⟩
 
-/-- **C03 (status), the part that holds at every depth.** In every run a directly called
-task that did not become a waiter of a shared (`run: once` / `when_changed`) execution never
-returns a bare exit status — so `main` never maps a command's exit status to the generic
-exit code 1. -/
+/-! ### what the execution of a task ends with, and what each caller makes of it -/
+
+theorem exitCode_run_false (e : Res) : exitCode (.run e) false = 201 := by cases e <;> rfl
+
+/-- **own command / `task:` entry.** A failure that is not ignored ends the execution with
+the *bare* failure, marked as wrappable — whoever called the task, however. -/
+theorem C03_outcome_cmd (x : Act) (c : Cmd) (r : Res) (hok : r.isOk = false) (hi : ¬ Ignored x.def_ c r) :
+    (x.afterCmd c r).out = ⟨r, true⟩ := by
+  cases r with
+  | ok => cases hok
+  | exit n =>
+    have h1 : x.def_.ignoreError = false := by
+      cases h : x.def_.ignoreError with
+      | false => rfl
+      | true => exact absurd ⟨n, rfl, .inl h⟩ hi
+    cases c with
+    | shell k ie d =>
+      cases ie with
+      | true => exact absurd ⟨n, rfl, .inr ⟨k, d, rfl⟩⟩ hi
+      | false => simp only [Act.afterCmd, h1, Bool.false_eq_true, if_false]; rfl
+    | call t d => simp only [Act.afterCmd, h1, Bool.false_eq_true, if_false]; rfl
+  | ctx => cases c with
+    | shell k ie d => cases ie <;> rfl
+    | call t d => rfl
+  | typed n => cases c with
+    | shell k ie d => cases ie <;> rfl
+    | call t d => rfl
+  | run e => cases c with
+    | shell k ie d => cases ie <;> rfl
+    | call t d => rfl
+  | generic => cases c with
+    | shell k ie d => cases ie <;> rfl
+    | call t d => rfl
+
+/-- **dependencies.** An exit status reported by the dependency group ends the execution with
+that status, marked; any other error of the group unmarked (it is returned as it is). -/
+theorem C03_outcome_deps (x : Act) (n : Nat) (r : Res) (h : ∀ m, r ≠ .exit m) :
+    (x.stopDeps (.exit n)).out = ⟨.exit n, true⟩ ∧ (x.stopDeps r).out = ⟨r, false⟩ := by
+  refine ⟨rfl, ?_⟩
+  cases r <;> first | rfl | exact absurd rfl (h _)
+
+/-- wrapping the outcome of an execution by a flag `b` is exactly what the executing
+activation would have returned had it been called that way (`b = true`: through `deps:` /
+`task:`, `b = false`: directly) -/
+theorem C03_as_if_fail (z : Act) (r : Res) (b : Bool) :
+    wrapFor b (z.fail r).out = (({ z with indirect := b } : Act).fail r).res := rfl
+theorem C03_as_if_stopDeps (z : Act) (r : Res) (b : Bool) :
+    wrapFor b (z.stopDeps r).out = (({ z with indirect := b } : Act).stopDeps r).res :=
+  (depErr_eq_wrapFor b r).symm
+theorem C03_as_if_stop (z : Act) (r : Res) (b : Bool) :
+    wrapFor b (z.stop r).out = (({ z with indirect := b } : Act).stop r).res := rfl
+
+/-- **every activation returns its own wrapping of the outcome it took** (its own
+execution's, or — a dedup waiter — the shared execution's) -/
+theorem C03_result_is_own_wrapping (P : Program) (F : Flags) (n : Nat) (tr : List Label) (c : Config)
+    (h : replay P F (init n) tr = some c) (a : Nat) (x : Act) (hx : c.act? a = some x) :
+    x.res = wrapFor x.indirect x.out ∧ ShapeOut x.out :=
+  ⟨OutInv_sound P F n tr c h a x hx, (Shape_sound P F n tr c h a x hx).out⟩
+
+/-- **C03 (no double wrapping).** In every run no activation returns a `TaskRunError` inside a
+`TaskRunError`, and an activation that was not called directly returns no `TaskRunError` at all. -/
+theorem C03_no_double_wrap (P : Program) (F : Flags) (n : Nat) (tr : List Label) (c : Config)
+    (h : replay P F (init n) tr = some c) (a : Nat) (x : Act) (hx : c.act? a = some x) :
+    (∀ q, x.res ≠ .run (.run q)) ∧ (x.indirect = true → ∀ q, x.res ≠ .run q) := by
+  obtain ⟨hr, hsh⟩ := C03_result_is_own_wrapping P F n tr c h a x hx
+  refine ⟨fun q => by rw [hr]; exact wrapFor_not_double _ _ hsh q, ?_⟩
+  intro hi q
+  rw [hr, hi, wrapFor_indirect]; exact hsh.bare q
+
+/-- **C03 (status), at full strength.** In every run, for every top-level activation — whether
+it executed the task itself or became a waiter of an execution some other call (a dependency,
+a `task:` entry, another name on the command line) had started:
+* its result is never a bare exit status — `main` never maps a command's exit status to the
+  generic exit code 1;
+* it is never a doubly wrapped `TaskRunError` (which would exit 201 even with `--exit-code`);
+* if the execution it took its outcome from ended with a failing command or with a
+  dependency's exit status, the result is `TaskRunError{that bare error}`: exit code 201, or the
+  command's own status with `--exit-code`;
+* otherwise (success, cancelled context, failed precondition, declined prompt: C13) it is the
+  unwrapped outcome. -/
+theorem C03_status_full (P : Program) (F : Flags) (n : Nat) (tr : List Label) (c : Config)
+    (h : replay P F (init n) tr = some c) (a : Nat) (x : Act) (hx : c.act? a = some x)
+    (ht : ∃ k, x.kind = .top k) :
+    (∀ m, x.res ≠ .exit m) ∧ (∀ q, x.res ≠ .run (.run q)) ∧
+    (x.out.wrappable = true → x.res = .run x.out.err ∧ exitCode x.res false = 201 ∧
+      ∀ m, x.out.err = .exit m → exitCode x.res true = m) ∧
+    (x.out.wrappable = false → x.res = x.out.err) := by
+  have hd := (C03_top_is_direct P F n tr c h a x hx).mpr ht
+  obtain ⟨hr, hsh⟩ := C03_result_is_own_wrapping P F n tr c h a x hx
+  rw [hd] at hr
+  refine ⟨fun m => by rw [hr]; exact wrapFor_direct_ne_exit _ hsh m,
+    (C03_no_double_wrap P F n tr c h a x hx).1, ?_, ?_⟩
+  · intro hw
+    have e : x.res = .run x.out.err := by rw [hr, wrapFor_direct, if_pos hw]
+    refine ⟨e, by rw [e]; exact exitCode_run_false _, ?_⟩
+    intro m hm; rw [e, hm]; rfl
+  · intro hw
+    rw [hr, wrapFor_direct, hw]; rfl
+
+/-- the part of `C03_status_full` that held before the fix too (kept under its old name) -/
 theorem C03_status_partial (P : Program) (F : Flags) (n : Nat) (tr : List Label) (c : Config)
     (h : replay P F (init n) tr = some c) (a : Nat) (x : Act) (hx : c.act? a = some x)
-    (ht : ∃ k, x.kind = .top k) (hw : x.waitsFor = none) : ∀ m, x.res ≠ .exit m :=
-  (StatusInv_sound P F n tr c h a x hx).2.2 ((C03_top_is_direct P F n tr c h a x hx).mpr ht) hw
+    (ht : ∃ k, x.kind = .top k) : ∀ m, x.res ≠ .exit m :=
+  (C03_status_full P F n tr c h a x hx ht).1
+
+/-- **C03 (a waiter is served like an executor).** An activation that found the execution of
+its `run: once` / `when_changed` key already registered and has been woken took the outcome
+of that (finished) execution; its result is that outcome wrapped by its *own* call mode — by
+`C03_as_if_*` what it would have returned had it executed the task itself — while the
+executing activation's result is the same outcome wrapped by *its* call mode.  Both succeed or
+both fail; called the same way they return the same error. -/
+theorem C03_waiter_as_executor (P : Program) (F : Flags) (n : Nat) (tr : List Label) (c : Config)
+    (h : replay P F (init n) tr = some c) (a : Nat) (x : Act) (hx : c.act? a = some x)
+    (k : Nat) (hw : x.waitsFor = some k) (hp : x.phase ≠ .wWaiting ∧ x.phase ≠ .wReleased) :
+    ∃ e ex, c.execs.lookup k = some e ∧ c.act? e = some ex ∧ execOver ex.phase = true ∧
+      x.res = wrapFor x.indirect ex.out ∧ ex.res = wrapFor ex.indirect ex.out ∧
+      (x.indirect = ex.indirect → x.res = ex.res) ∧ x.res.isOk = ex.res.isOk := by
+  obtain ⟨e, ex, h1, h2, h3, ⟨_, h4⟩, _, _⟩ := Props.C02.C02_waiter_sync P F n tr c h a x hx k hw hp
+  obtain ⟨h5, hsh⟩ := C03_result_is_own_wrapping P F n tr c h e ex h2
+  refine ⟨e, ex, h1, h2, h3, h4, h5, ?_, ?_⟩
+  · intro hi; rw [h4, h5, hi]
+  · rw [h4, h5, wrapFor_isOk _ _ hsh, wrapFor_isOk _ _ hsh]
+
+/-- **a top-level waiter of a failed shared execution**: whoever started the execution — a
+dependency of another task, a `task:` entry — if its command failed with status `m`, the call
+given on the command line that waited for it ends with `TaskRunError{exit m}`: 201, or `m`
+with `--exit-code`. -/
+theorem C03_status_top_waiter (P : Program) (F : Flags) (n : Nat) (tr : List Label) (c : Config)
+    (h : replay P F (init n) tr = some c) (a : Nat) (x : Act) (hx : c.act? a = some x)
+    (ht : ∃ k, x.kind = .top k) (k : Nat) (hw : x.waitsFor = some k)
+    (hp : x.phase ≠ .wWaiting ∧ x.phase ≠ .wReleased) :
+    ∃ e ex, c.execs.lookup k = some e ∧ c.act? e = some ex ∧
+      ∀ m, ex.out = ⟨.exit m, true⟩ →
+        x.res = .run (.exit m) ∧ exitCode x.res false = 201 ∧ exitCode x.res true = m := by
+  obtain ⟨e, ex, h1, h2, _, h4, _⟩ := C03_waiter_as_executor P F n tr c h a x hx k hw hp
+  refine ⟨e, ex, h1, h2, ?_⟩
+  intro m hm
+  have hd := (C03_top_is_direct P F n tr c h a x hx).mpr ht
+  have e' : x.res = .run (.exit m) := by rw [h4, hd, hm]; rfl
+  rw [e']; exact ⟨rfl, rfl, rfl⟩
 
 /-- **the invocation's status is the named task's.** For `task t` (one task on the command
 line): a complete run that passes `finalCheck` — the check the correspondence harness applies
@@ -536,15 +676,67 @@ theorem C03_invocation_result_single (P : Program) (F : Flags) (t : Nat) (c : Co
           · rename_i he; subst he; exact seqResult_one c _ hq
           · cases h
 
-/-- The full statement — *no* top-level call ever returns a bare exit status — is what the
-property demands ("201, or the command's own status with `--exit-code`, wherever the failing
-command sits").  It is **false** of the executor: a top-level call that becomes a waiter of an
-execution that runs as somebody's dependency gets that execution's error as it is. -/
-def C03_status_full : Prop :=
-  ∀ (P : Program) (F : Flags) (n : Nat) (tr : List Label) (c : Config), replay P F (init n) tr = some c →
-    ∀ a x, c.act? a = some x → (∃ k, x.kind = .top k) → ∀ m, x.res ≠ .exit m
+/-- **the raw status monitor is sound.** On every run the model accepts (events replayed,
+final check passed for the error `Run` really returned) the verdict `C03s` the driver prints is
+`1`: `Run`'s error is no bare exit status and no doubly wrapped `TaskRunError`, and no
+dependency group reported a `TaskRunError`.  Any number of calls, sequential or `--parallel`. -/
+theorem C03_statusMon_sound (P : Program) (F : Flags) (calls : List Nat) (tr : List Label) (c : Config)
+    (result : Res) (h : replay P F (init calls.length) tr = some c)
+    (hf : finalCheck P F calls c result = none) : statusMon tr result = true := by
+  unfold statusMon
+  rw [Bool.and_eq_true]
+  constructor
+  · rcases finalCheck_result P F calls c result hf with e | ⟨k, e⟩ | ⟨k, id, hl, hk⟩
+    · rw [e]; rfl
+    · rw [e]; rfl
+    · obtain ⟨x, hx, hkind⟩ := (Reach_sound P F _ tr c h).tops k id hl
+      obtain ⟨x', hx', _, hres⟩ := (kidDone_some c id result).mp hk
+      rw [hx] at hx'; cases hx'
+      obtain ⟨g1, g2, _⟩ := C03_status_full P F _ tr c h id x hx ⟨k, hkind⟩
+      rw [hres] at g1 g2
+      cases result with
+      | exit m => exact absurd rfl (g1 m)
+      | run q =>
+        cases q with
+        | run q' => exact absurd rfl (g2 q')
+        | _ => rfl
+      | _ => rfl
+  · rw [List.all_eq_true]
+    intro l hl
+    obtain ⟨tr1, tr2, e⟩ := List.append_of_mem hl
+    subst e
+    obtain ⟨c1, c2, h1, hs, _⟩ := replay_split P F _ c tr1 tr2 l h
+    obtain ⟨a, ev⟩ := l
+    cases ev with
+    | depsDone r =>
+      cases r with
+      | run q => exact absurd rfl (step_depsDone_bare P F c1 c2 a _ (Reach_sound P F _ tr1 c1 h1) hs q)
+      | _ => rfl
+    | _ => rfl
 
-/-- `task --parallel b a` with `b: {deps: [a]}`, `a: {run: once, cmds: [exit 7]}` -/
+/-! ### history: the rule before the fix of `C03-dedup-waiter-status` -/
+
+/-- (old rule, not used by the model) the executing activation wrapped the failure by its own
+call mode and every waiter received that wrapped error as it was -/
+def oldWaiterRes (execIndirect : Bool) (o : Outcome) : Res := wrapFor execIndirect o
+
+/-- under the old rule a top-level waiter of an execution that ran as a dependency returned
+the bare status (exit code 1 with and without `--exit-code`), and the direct caller of an
+indirect waiter of a top-level execution wrapped a `TaskRunError` again (201 even with
+`--exit-code`); under the rule the model mirrors now both end with `TaskRunError{exit 7}` -/
+theorem C03_old_rule_counterexample :
+    oldWaiterRes true ⟨.exit 7, true⟩ = .exit 7 ∧
+    exitCode (oldWaiterRes true ⟨.exit 7, true⟩) false = 1 ∧ exitCode (oldWaiterRes true ⟨.exit 7, true⟩) true = 1 ∧
+    wrap false (oldWaiterRes false ⟨.exit 7, true⟩) = .run (.run (.exit 7)) ∧
+    exitCode (wrap false (oldWaiterRes false ⟨.exit 7, true⟩)) true = 201 ∧
+    wrapFor false ⟨.exit 7, true⟩ = .run (.exit 7) ∧ wrap false (wrapFor true ⟨.exit 7, true⟩) = .run (.exit 7) := by
+  decide
+
+/-! ### non-vacuity: the two dedup shapes -/
+
+/-- `task --parallel b a` with `b: {deps: [a]}`, `a: {run: once, cmds: [exit 7]}`: the execution
+of `a` is started as the dependency of `b` (activation 2); the top-level call of `a`
+(activation 3) becomes its waiter -/
 private def progW : Program := [ { run := .once, cmds := [.shell 7 false false] }, { deps := [0] } ]
 
 private def runW : List Label :=
@@ -554,32 +746,30 @@ private def runW : List Label :=
    ⟨3, .enter (.top 1) 0⟩, ⟨3, .acquire⟩, ⟨3, .waiter 5⟩, ⟨3, .wRelease⟩, ⟨3, .wWake⟩, ⟨3, .wReacq⟩, ⟨3, .release⟩, ⟨3, .exit⟩,
    ⟨1, .depsReacq⟩, ⟨1, .depsDone (.exit 7)⟩, ⟨1, .release⟩, ⟨1, .exit⟩]
 
-/-- the top-level call of `a` (activation 3) returns the bare `exit 7`: exit code 1 with and
-without `--exit-code`, while the top-level call of `b` returns `TaskRunError{exit 7}` (201 / 7) -/
-theorem C03_status_counterexample : ¬ C03_status_full := by
-  intro hfull
-  have hk : ((replay progW { parallel := true } (init 2) runW).bind (·.act? 3)).map (fun x => (x.kind, x.res)) =
-      some (.top 1, .exit 7) := by decide
-  cases hc : replay progW { parallel := true } (init 2) runW with
-  | none => rw [hc] at hk; cases hk
-  | some c =>
-    rw [hc] at hk
-    cases hx : c.act? 3 with
-    | none => simp [hx] at hk
-    | some x =>
-      simp only [Option.bind, hx, Option.map, Option.some.injEq, Prod.mk.injEq] at hk
-      exact hfull progW { parallel := true } 2 runW c hc 3 x hx ⟨1, hk.1⟩ 7 hk.2
-
+-- the top-level waiter (hypotheses of `C03_status_top_waiter`: kind `top`, `waitsFor`, woken) ends with
+-- `TaskRunError{exit 7}`: 201, or 7 with `--exit-code` — like the top-level call of `b`
 example : ((replay progW { parallel := true } (init 2) runW).bind (·.act? 3)).map
-    (fun x => (x.kind, x.waitsFor, x.res, exitCode x.res false, exitCode x.res true)) =
-    some (.top 1, some 5, .exit 7, 1, 1) := by decide
+    (fun x => (x.kind, x.waitsFor, x.out, x.res, exitCode x.res false, exitCode x.res true)) =
+    some (.top 1, some 5, ⟨.exit 7, true⟩, .run (.exit 7), 201, 7) := by decide
 example : ((replay progW { parallel := true } (init 2) runW).bind (·.act? 1)).map
     (fun x => (x.kind, x.res, exitCode x.res false, exitCode x.res true)) =
     some (.top 0, .run (.exit 7), 201, 7) := by decide
+-- the executing activation was called as a dependency: it returns the bare status, its outcome is marked
+example : ((replay progW { parallel := true } (init 2) runW).bind (·.act? 2)).map
+    (fun x => (x.kind, x.indirect, x.key, x.out, x.res)) =
+    some (.dep 1 0, true, some 5, ⟨.exit 7, true⟩, .exit 7) := by decide
+-- the run is complete and either top-level result is accepted as `Run`'s error; the raw monitor holds
+example : (replay progW { parallel := true } (init 2) runW).map
+    (fun c => (finalCheck progW { parallel := true } [1, 0] c (.run (.exit 7))).isNone) = some true := by decide
+example : statusMon runW (.run (.exit 7)) = true := by decide
+-- what the unpatched executor returned for this run is rejected by the final check and by the raw monitor
+example : (replay progW { parallel := true } (init 2) runW).map
+    (fun c => (finalCheck progW {} [0] c (.exit 7)).isNone) = some false := by decide
+example : statusMon runW (.exit 7) = false := by decide
 
-/-- the other dedup corner: `task --parallel a c` with `c: {cmds: [{task: a}]}`; the call of `a`
-inside `c` waits for the top-level execution of `a` and returns its `TaskRunError`, which `c`
-wraps again: exit code 201 even with `--exit-code` -/
+/-- the reverse: `task --parallel a c` with `c: {cmds: [{task: a}]}`; the execution of `a` is the
+top-level call (activation 1), the call of `a` inside `c` (activation 3) waits for it and
+returns the bare status, which `c` wraps once -/
 private def progD : Program := [ { run := .once, cmds := [.shell 7 false false] }, { cmds := [.call 0 false] } ]
 
 private def runD : List Label :=
@@ -592,11 +782,44 @@ private def runD : List Label :=
    ⟨3, .wWake⟩, ⟨3, .wReacq⟩, ⟨3, .release⟩, ⟨3, .exit⟩,
    ⟨2, .callRet 0⟩, ⟨2, .callReacq 0⟩, ⟨2, .release⟩, ⟨2, .exit⟩, ⟨1, .release⟩, ⟨1, .exit⟩]
 
+-- the indirect waiter (hypotheses of `C03_waiter_as_executor`) returns the bare status although the execution it
+-- waited for returned `TaskRunError{exit 7}` to its own (direct) caller
+example : ((replay progD { parallel := true } (init 2) runD).bind (·.act? 3)).map
+    (fun x => (x.kind, x.indirect, x.waitsFor, x.out, x.res)) =
+    some (.call 2 0 false, true, some 5, ⟨.exit 7, true⟩, .exit 7) := by decide
+example : ((replay progD { parallel := true } (init 2) runD).bind (·.act? 1)).map
+    (fun x => (x.kind, x.indirect, x.key, x.out, x.res)) =
+    some (.top 0, false, some 5, ⟨.exit 7, true⟩, .run (.exit 7)) := by decide
+-- … so its caller wraps once: 201, or 7 with `--exit-code`
 example : ((replay progD { parallel := true } (init 2) runD).bind (·.act? 2)).map
     (fun x => (x.kind, x.res, exitCode x.res false, exitCode x.res true)) =
-    some (.top 1, .run (.run (.exit 7)), 201, 201) := by decide
+    some (.top 1, .run (.exit 7), 201, 7) := by decide
+example : (replay progD { parallel := true } (init 2) runD).map
+    (fun c => (finalCheck progD { parallel := true } [0, 1] c (.run (.exit 7))).isNone) = some true := by decide
+example : statusMon runD (.run (.exit 7)) = true := by decide
+example : statusMon runD (.run (.run (.exit 7))) = false := by decide
 -- the waiter is woken only after the shared execution has finished (repaired behaviour)
 example : (replay progD { parallel := true } (init 2) (runD.take 19 ++ [⟨3, .wWake⟩])).isNone = true := by decide
+
+/-- the same with the waiter reached through `deps:`: `task --parallel a c`, `c: {deps: [a]}` — the
+dependency group of `c` reports the bare status (a `TaskRunError` there is what the raw
+monitor's second half rejects) -/
+private def progE : Program := [ { run := .once, cmds := [.shell 7 false false] }, { deps := [0] } ]
+
+private def runE : List Label :=
+  [⟨1, .enter (.top 0) 0⟩, ⟨1, .acquire⟩, ⟨1, .register 5⟩, ⟨1, .depsRelease⟩, ⟨1, .depsReacq⟩, ⟨1, .depsDone .ok⟩,
+   ⟨1, .guardsPassed⟩, ⟨1, .cmdStart 0 none false⟩,
+   ⟨2, .enter (.top 1) 1⟩, ⟨2, .acquire⟩, ⟨2, .depsRelease⟩,
+   ⟨3, .enter (.dep 2 0) 0⟩, ⟨3, .acquire⟩, ⟨3, .waiter 5⟩, ⟨3, .wRelease⟩,
+   ⟨1, .cmdEnd 0 (.exit 7)⟩, ⟨1, .execDone⟩,
+   ⟨3, .wWake⟩, ⟨3, .wReacq⟩, ⟨3, .release⟩, ⟨3, .exit⟩,
+   ⟨2, .depsReacq⟩, ⟨2, .depsDone (.exit 7)⟩, ⟨2, .release⟩, ⟨2, .exit⟩, ⟨1, .release⟩, ⟨1, .exit⟩]
+
+example : (replay progE { parallel := true } (init 2) runE).map (fun c => [1, 2, 3].map (fun a => (c.act? a).map (·.res))) =
+    some [some (.run (.exit 7)), some (.run (.exit 7)), some (.exit 7)] := by decide
+-- the old executor's log of this run (`depsDone` of `c` reports the `TaskRunError`) is rejected at that event
+example : (replay progE { parallel := true } (init 2) (runE.take 22 ++ [⟨2, .depsDone (.run (.exit 7))⟩])).isNone = true := by decide
+example : statusMon (runE.take 22 ++ [⟨2, .depsDone (.run (.exit 7))⟩]) (.run (.exit 7)) = false := by decide
 
 /-! ## non-vacuity: a failure in a called task -/
 
